@@ -334,6 +334,11 @@ def run(ctx):
                     ctx.count('cli_harness_skip')
         if ctx.shard % 4 == 0:
             cli_subset_alt_tables(ctx, scratch)
+        for bi, (name, msg) in enumerate(cases.big_cases(rng)):
+            if ctx.mine(bi) and msg.nsub > 1:
+                ctx.count('big_cases')
+                check_pairs(ctx, dec, enc, msg.bytes, [s_.meta for s_ in msg.subsets],
+                            dict(origin='big', shape=name, ids=msg.ids, nsub=msg.nsub, compressed=msg.compressed), 'big')
         k = 0
         for nsub in (3, 4, 5):
             for name, msg in cases.same_layout_cases(rng, nsub=nsub):
